@@ -40,6 +40,36 @@ def close(f, q):
     return abs(Fraction(f) - q) <= Fraction(TOL) * max(1, abs(q))
 
 
+def fhex(v):
+    """bit pattern of a float (all NaNs alike); anything else by repr"""
+    return v.hex() if isinstance(v, float) else repr(v)
+
+
+def same_bits(a, b):
+    return fhex(a) == fhex(b)
+
+
+def same_tol(a, b):
+    if isinstance(a, float) and isinstance(b, float):
+        return (math.isnan(a) and math.isnan(b)) or abs(a - b) <= TOL * max(1, abs(a))
+    return a == b
+
+
+def range_violations(got):
+    """'every metric stays within its documented range', exactly: 0 <= coverage, average coverage <= 100, 0 <= distance,
+    divergence <= 1 on the returned floats themselves"""
+    bad = []
+    for key, hi in (("coverage", 100), ("avg", 100), ("divergence", 1)):
+        v = got[key]
+        if isinstance(v, float) and not math.isnan(v) and not (0 <= v <= hi):
+            bad.append(f"{key} = {v!r} outside [0,{hi}]")
+    for i, row in enumerate(got["matrix"]):
+        for j, v in enumerate(row):
+            if isinstance(v, float) and not math.isnan(v) and not (0 <= v <= 1):
+                bad.append(f"distance({got['plats'][i]},{got['plats'][j]}) = {v!r} outside [0,1]")
+    return bad
+
+
 # ---- the property's definitions on line multisets (independent of the code and of the Lean model)
 def oracle(sm, ps):
     total = sum(c for _, c in sm)
@@ -117,10 +147,9 @@ def check_case(ctx, drv, report, sm, ps, origin):
                     bad.append(f"distance not symmetric for ({p},{q}): {g} vs {g2}")
                 if i == j and isinstance(g, float) and not math.isnan(g) and g != 0:
                     bad.append(f"distance({p},{p}) = {g} != 0")
-    for key, lo, hi in (("coverage", 0, 100), ("avg", 0, 100), ("divergence", 0, 1)):
-        v = got[key]
-        if isinstance(v, float) and not math.isnan(v) and not (lo - TOL <= v <= hi + TOL):
-            bad.append(f"{key} = {v} outside [{lo},{hi}]")
+    # documented ranges, EXACTLY (no tolerance): a percentage is never above 100, a distance never above 1 - the code's
+    # operation order ((used / total) * 100.0, different / total, sums of such terms divided by their number) guarantees it
+    bad += range_violations(got)
     if bad:
         ctx.violation("; ".join(bad[:4]), case)
     # documented NaN for "no platforms" in coverage(): recorded reading difference
@@ -198,11 +227,14 @@ def history(ctx, report, sm, rng):
 
 
 def metamorphic(ctx, report, sm, rng):
-    """rename / reorder / scale invariance on the implementation itself."""
+    """rename / reorder / scale invariance on the implementation itself.  'Unchanged' is taken literally (same bit pattern)
+    wherever the order of the float operations does not depend on the transformation; the exceptions are listed in
+    INEXACT below and stay at the tolerance."""
     setmap = {}
     for k, c in sm:
         setmap[frozenset(k)] = setmap.get(frozenset(k), 0) + c
     allp = sorted(set(p for k in setmap for p in k))
+    total = sum(setmap.values())
 
     def metrics(smap, ren=lambda x: x):
         try:
@@ -213,11 +245,6 @@ def metamorphic(ctx, report, sm, rng):
             )
         except Exception as e:  # noqa
             return f"EXC:{type(e).__name__}"
-
-    def same(a, b):
-        if isinstance(a, float) and isinstance(b, float):
-            return (math.isnan(a) and math.isnan(b)) or abs(a - b) <= TOL * max(1, abs(a))
-        return a == b
 
     base = metrics(setmap)
     if isinstance(base, str):
@@ -234,18 +261,168 @@ def metamorphic(ctx, report, sm, rng):
     rng.shuffle(perm)
     ren = {p: "z" + q for p, q in zip(allp, perm)}
     m4 = metrics({frozenset(ren[p] for p in s): c for s, c in setmap.items()})
-    for label, mx in (("reordering entries", m2), ("scaling counts by %d" % k, m3), ("renaming platforms", m4)):
+    for label, mx, tr in (("reordering entries", m2, {"t": "reorder"}), ("scaling counts by %d" % k, m3, {"t": "scale", "k": k}),
+                          ("renaming platforms", m4, {"t": "rename", "ren": ren})):
         ctx.count(key="metamorphic:" + label.split()[0])
         if isinstance(mx, str):
             ctx.violation(f"{label} raises {mx}", {"setmap": [[sorted(s), c] for s, c in setmap.items()], "transform": label})
             continue
-        ok = all(same(a, b) for a, b in zip(base[:3], mx[:3]))
-        if label.startswith("renaming"):
-            ok = ok and all(same(base[3][(p, q)], mx[3][(ren[p], ren[q])]) for (p, q) in base[3])
-        else:
-            ok = ok and all(same(base[3][k2], mx[3][k2]) for k2 in base[3])
-        if not ok:
-            ctx.violation(f"metrics change under {label}", {"setmap": [[sorted(s), c] for s, c in setmap.items()], "transform": label, "ren": ren})
+        exact = exact_keys(allp, total, tr)
+        ctx.dist["metamorphic:bitwise-metrics"] += len(exact)
+        cmp = {key: (same_bits if key in exact else same_tol) for key in ("coverage", "avg", "divergence", "distance")}
+        bad = [f"{key}: {a!r} -> {b!r}" for key, a, b in zip(("coverage", "avg", "divergence"), base[:3], mx[:3]) if not cmp[key](a, b)]
+        for (p, q), a in base[3].items():
+            b = mx[3][(ren[p], ren[q])] if label.startswith("renaming") else mx[3][(p, q)]
+            if not cmp["distance"](a, b):
+                bad.append(f"distance({p},{q}): {a!r} -> {b!r}")
+        if bad:
+            ctx.violation(f"metrics change under {label}: " + "; ".join(bad[:3]),
+                          {"setmap": [[sorted(s), c] for s, c in setmap.items()], "platforms": [], "origin": "metamorphic",
+                           "exact": ({"t": "reorder", "order": [list(setmap).index(s) for s, _ in items]} if tr["t"] == "reorder" else tr)})
+
+
+# ---- exact (bit-for-bit) reading of "stays within its documented range" and "unchanged by renaming, reordering, scaling"
+# Why the unchanged code is exact (checked on > 10^5 tables before these comparisons were made strict):
+#   coverage   = (used / total) * 100.0 : int / int is the correctly rounded quotient, a function of the rational used/total
+#                alone (<= 1, so the product is <= 100.0); the sums are integer sums.
+#   average    = sum of those floats in sorted platform order / their number: the same floats in the same order under
+#                scaling, reordering of rows and order-preserving renaming; each term <= 100 so the sum is <= 100 n.
+#   distance   = different / float(total): correctly rounded quotient of two exactly converted integers while every count
+#                is below 2^53; <= 1.
+#   divergence = distances added in sorted pair order / number of pairs.
+# INEXACT (kept at the tolerance, measured on the unchanged code):
+#   * a renaming that changes the sorted order of the platforms changes the order in which average coverage and
+#     divergence add their terms (divergence differs in the last bit on ~24 % of random tables; average coverage did not
+#     differ in 6*10^4 tables only because the interpreter's sum() is a compensated sum);
+#   * scaling beyond 2^53 lines: distance() converts both integers to float first (distance / divergence differ in the
+#     last bit on ~60 % / ~14 % of such tables); coverage and average coverage use int / int and stay exact.
+def exact_keys(allp, total, tr):
+    if tr["t"] == "reorder":
+        return {"coverage", "avg", "divergence", "distance"}
+    if tr["t"] == "scale":
+        return {"coverage", "avg", "divergence", "distance"} if total * tr["k"] <= 2 ** 53 else {"coverage", "avg"}
+    ren = tr["ren"]
+    mono = [ren[p] for p in allp] == sorted(ren[p] for p in allp)
+    return {"coverage", "avg", "divergence", "distance"} if mono else {"coverage", "distance"}
+
+
+def merged_rows(sm):
+    d = {}
+    for k, c in sm:
+        d[frozenset(k)] = d.get(frozenset(k), 0) + c
+    return [(sorted(k), c) for k, c in d.items()]
+
+
+def transform(rows, ps, tr):
+    if tr["t"] == "scale":
+        return [(k, c * tr["k"]) for k, c in rows], list(ps)
+    if tr["t"] == "reorder":
+        return [rows[i] for i in tr["order"]], list(reversed(ps))
+    ren = tr["ren"]
+    return [([ren[p] for p in k], c) for k, c in rows], [ren[p] for p in ps]
+
+
+def describe(tr):
+    return {"scale": lambda: "multiplying all counts by %d" % tr["k"], "reorder": lambda: "reordering the rows",
+            "rename": lambda: "renaming the platforms"}[tr["t"]]()
+
+
+def exact_case(ctx, report, sm, ps, tr, origin, detail=None):
+    """One table (rows merged), one platforms argument, one transformation: the four metrics of the transformed table
+    are the same floats (bit patterns) as those of the table - tolerance only for the metrics outside exact_keys."""
+    rows = merged_rows(sm)
+    allp = sorted(set(p for k, _ in rows for p in k))
+    total = sum(c for _, c in rows)
+    case = {"setmap": [[list(k), c] for k, c in rows], "platforms": list(ps), "origin": origin, "exact": tr}
+    rows2, ps2 = transform(rows, ps, tr)
+    base, _ = impl(report, rows, ps)
+    other, _ = impl(report, rows2, ps2)
+    exact = exact_keys(allp, total, tr)
+    ctx.count(key=f"exact:{tr['t']}" + ("" if len(exact) == 4 else ":partly-tolerance"))
+    cmp = {key: (same_bits if key in exact else same_tol) for key in ("coverage", "avg", "divergence", "distance")}
+    ren = tr.get("ren") or {p: p for p in allp}
+    bad = range_violations(other)
+    what = describe(tr)
+    if other["plats"] != sorted(ren[p] for p in base["plats"]):
+        bad.append(f"platforms {base['plats']} become {other['plats']} after {what}")
+    else:
+        for key in ("coverage", "avg", "divergence"):
+            a, b = base[key], other[key]
+            if not cmp[key](a, b):
+                bad.append(f"{key} is {a!r} ({fhex(a)}) on the table but {b!r} ({fhex(b)}) after {what}")
+        idx = {q: j for j, q in enumerate(other["plats"])}
+        for i, p in enumerate(base["plats"]):
+            for j, q in enumerate(base["plats"]):
+                a, b = base["matrix"][i][j], other["matrix"][idx[ren[p]]][idx[ren[q]]]
+                if not cmp["distance"](a, b):
+                    bad.append(f"distance({p},{q}) is {a!r} ({fhex(a)}) on the table but {b!r} ({fhex(b)}) after {what}")
+    if detail is not None:
+        detail.update({"table": base, "transformed": other, "compared_bit_for_bit": sorted(exact)})
+    if bad:
+        ctx.violation("; ".join(bad[:3]) + " - the property says every metric is unchanged and within its range", case)
+
+
+def compositions(rng, total, parts):
+    """`parts` positive integers adding up to `total`"""
+    cuts = sorted(rng.sample(range(1, total), parts - 1))
+    return [b - a for a, b in zip([0] + cuts, cuts + [total])]
+
+
+def sweep_tables(rng, total, nrand):
+    """tables whose counts add up to exactly `total` lines: tables in which every line is used by every (selected)
+    platform - coverage and average coverage are exactly 100 there - and random splits of the total"""
+    pool = rng.choice(NAME_POOLS)
+    for n in (1, 2, 3):
+        ns = sorted(rng.sample(pool, n))
+        yield "full", [(ns, total)], []
+        yield "full", [(ns, total)], [rng.choice(ns)]
+    if total >= 2:
+        a, b, c = rng.sample(pool, 3)
+        x, y = compositions(rng, total, 2)
+        yield "full-selected", [([a, b], x), ([a], y)], [a]
+        yield "full-selected", [([a, b], x), ([a, b, c], y)], rng.choice([[], [a, b], [b]])
+        if total >= 3:
+            x, y, z = compositions(rng, total, 3)
+            yield "full", [([a, b], x), ([b, a, c], y), ([c, b, a], z)], rng.choice([[], [a], [a, b]])
+    for _ in range(nrand):
+        ns = rng.sample(pool, rng.randint(1, 5))
+        counts = compositions(rng, total, rng.randint(1, min(6, total)))
+        if rng.random() < 0.3:
+            counts.append(0)
+        dens = rng.choice([0.3, 0.6, 0.9])
+        rows = [([p for p in ns if rng.random() < dens], cnt) for cnt in counts]
+        plats = sorted(set(p for k, _ in rows for p in k))
+        ps = [p for p in plats if rng.random() < 0.5] if rng.random() < 0.6 else []
+        yield "split", rows, ps
+
+
+def sweep_transforms(rng, rows, allp):
+    for k in rng.sample([2, 3, 5, 7, 10, 12, 100, 1000], 2) + [rng.randint(2, 10 ** 4)]:
+        yield {"t": "scale", "k": k}
+    if len(rows) >= 2:
+        order = list(range(len(rows)))
+        rng.shuffle(order)
+        yield {"t": "reorder", "order": order}
+    if allp:
+        # order preserving (prefix, or rank numbers of another shape) and arbitrary
+        yield {"t": "rename", "ren": ({p: "z" + p for p in allp} if rng.random() < 0.5 else {p: "q%02d" % i for i, p in enumerate(allp)})}
+        perm = allp[:]
+        rng.shuffle(perm)
+        yield {"t": "rename", "ren": {p: "r-" + q for p, q in zip(allp, perm)}}
+
+
+def total_sweep(ctx, drv, report):
+    """every total 1..N: whether a float formula keeps a percentage <= 100 and scale invariant depends on the particular
+    total (a reciprocal 100.0 / total is inexact for most totals), so all small totals are visited, not a random few"""
+    top = ctx.n(200, 1500)
+    for total in range(1, top + 1):
+        for shape, sm, ps in sweep_tables(ctx.rng, total, 4 if total <= 200 else 2):
+            ctx.dist[f"total-sweep:{shape}"] += 1
+            check_case(ctx, drv if total <= 200 else None, report, sm, ps, f"total-sweep:{shape}")
+            rows = merged_rows(sm)
+            allp = sorted(set(p for k, _ in rows for p in k))
+            for tr in sweep_transforms(ctx.rng, rows, allp):
+                exact_case(ctx, report, sm, ps, tr, f"total-sweep:{shape}")
 
 
 def clustering_case(ctx, report, sm, scratch):
@@ -375,9 +552,17 @@ def run(ctx, drv):
                 "random tables up to 8 platforms, counts up to 1e12. Non-trivial = distinct (table, platforms argument) "
                 "with >= 2 platforms, divergence defined and non-zero, coverage strictly between 0 and 100.  Clustering report: 40 (quick) / 400 "
                 "(thorough) tables over 2-7 platforms (plain letters, or names such as p2 / p10 / node2 / node10 whose natural and lexicographic "
-                "orders differ); every printed cell is compared, by its row and column labels, with the exact Jaccard distance.")
+                "orders differ); every printed cell is compared, by its row and column labels, with the exact Jaccard distance.  "
+                "Total sweep: for EVERY total 1..200 (quick) / 1..1500 (thorough) tables with exactly that many lines - every line used "
+                "by every (selected) platform, and random splits over 1-5 platforms - each checked against the definitions, "
+                "against the exact ranges 0 <= x <= 100 / 0 <= d <= 1 and, bit for bit, against itself with all counts multiplied by a "
+                "common factor (2 fixed + 1 random factor), rows reordered, platforms renamed (order preserving and arbitrary).")
     ctx.assumptions += [
-        "float result accepted when within 1e-9 relative of the exact rational (IEEE rounding is not modelled)",
+        "float VALUE accepted when within 1e-9 relative of the exact rational (IEEE rounding is not modelled); the RANGES are "
+        "checked exactly (0 <= coverage, average coverage <= 100, 0 <= distance, divergence <= 1) and 'unchanged by renaming / "
+        "reordering / scaling' bit for bit, except: average coverage and divergence under a renaming that changes the sorted "
+        "order of the platforms (other summation order), distance and divergence when scaling takes the table beyond 2^53 lines "
+        "(distance() converts to float before dividing) - these stay at 1e-9",
         "reading of 'NaN exactly when undefined': coverage NaN iff no lines; average coverage NaN iff no lines or no platforms; "
         "distance NaN iff neither platform has a line; divergence NaN iff < 2 platforms or some pair has no line",
     ]
@@ -417,6 +602,8 @@ def run(ctx, drv):
             for _ in range(ctx.rng.randint(2, 10)):
                 sm.append(([p for p in names if ctx.rng.random() < 0.5], ctx.rng.choice([0, 1, 2, 3, 5, 10, 40])))
             clustering_case(ctx, report, sm, scratch)
+    # every small total, last: the draws of the older streams stay what they were for a given VERIF_SEED
+    total_sweep(ctx, drv, report)
 
 
 def search(ctx, drv):
@@ -437,8 +624,16 @@ def replay(ctx, drv, case):
         with core.Scratch() as scratch:
             clustering_case(c2, report, sm, scratch)
         return {"violations": [w for w, _ in c2.violations], "definition": oracle(sm, [])}
+    if case.get("exact"):
+        c2 = core.Ctx(ctx.prop, "quick", 0)
+        detail = {}
+        exact_case(c2, report, sm, case.get("platforms", []), case["exact"], case.get("origin", "replay"), detail)
+        hexed = {k: ({m: (fhex(v) if m != "matrix" else [[fhex(x) for x in r] for r in v]) for m, v in d.items() if m != "plats"}
+                     if isinstance(d, dict) else d) for k, d in detail.items()}
+        return {"violations": [w for w, _ in c2.violations], "transformation": describe(case["exact"]), **detail, "bit_patterns": hexed,
+                "definition": oracle(sm, case.get("platforms", []))}
     got, _ = impl(report, sm, case.get("platforms", []))
-    out = {"implementation": got, "definition": oracle(sm, case.get("platforms", []))}
+    out = {"implementation": got, "definition": oracle(sm, case.get("platforms", [])), "outside_documented_range": range_violations(got)}
     if drv is not None:
         out["model"] = drv.ask({"op": "metrics", "setmap": case["setmap"], "platforms": case.get("platforms", [])})
     return out
